@@ -629,7 +629,7 @@ func C20(run *core.Run) {
 		if run.Thorough() {
 			maxW = 6
 		}
-		for _, fault := range [][2]string{{"write", "ENOSPC"}, {"write", "EIO"}, {"read", "EIO"}, {"renameat", "EXDEV"}, {"renameat", "EACCES"}} {
+		for _, fault := range [][2]string{{"write", "ENOSPC"}, {"write", "EIO"}, {"read", "EIO"}, {"renameat", "EXDEV"}, {"renameat", "EACCES"}, {"fchmodat", "EPERM"}, {"fchownat", "EPERM"}, {"utimensat", "EPERM"}} {
 			sc, errno := fault[0], fault[1]
 			for n := 1; n <= maxW; n++ {
 				eroot := fresh("err")
